@@ -121,10 +121,17 @@ def showUsers (s : St) (n : Nat) : String :=
     let hs := ((List.range s.toks.length).map fun j => (j + 1, s.user u (j + 1))).filter fun p => p.2 ≠ 0
     s!"u{u}={showPairs hs}")
 
+/-- the ghost `rel` (LP-farm amount released so far) of EVERY dual-yield nonce ever created, also the fully burned ones,
+    in the format of the harness's own ledger (`w_metastaking.rs`: `released`) -/
+def showGhosts (ts : List Tok) : String :=
+  let rows := (ts.zipIdx).filterMap fun (t, i) =>
+    if t.rel = 0 then none else some s!"{i + 1}:{t.rel}"
+  " led=rel:" ++ (if rows.isEmpty then "-" else ",".intercalate rows)
+
 def showState (d : DS) : String :=
   let p := d.st.pass
   s!"dy={showToks d.st.toks} lp={showHold d.lpKeys d.st.holdLp} st={showHold d.stKeys d.st.holdSt} " ++
-  s!"pass={p.ride},{p.other},{p.lp},{p.locked},{p.unbond} {showUsers d.st d.users}"
+  s!"pass={p.ride},{p.other},{p.lp},{p.locked},{p.unbond} {showUsers d.st d.users}" ++ showGhosts d.st.toks
 
 def showOut (kind : String) (o : Out) : String :=
   match kind with
